@@ -32,7 +32,13 @@
    that is valid for element j; same signing root for all, so that sums cancel, or different ones), one bad element
    at each position, duplicates, two elements of one validator; and (b) SEQUENCES of 2..3 calls to the same
    component that all carry the SAME signature bytes: the valid object, the object with one signed field changed, the
-   object filed under another duty type, a well-formed object of another kind - in every order, incl. exact replays.
+   object filed under another duty type, a well-formed object of another kind - in every order, incl. exact replays;
+   and (c) FORK SEQUENCES: 2..3 calls to the same component whose (fresh, individually signed) objects lie in
+   DIFFERENT fork versions, in ascending and in descending order of their epochs: a valid object wholly in fork b
+   ("laterFork": all its time fields in b, signed with b), an object wholly in b signed with a ("laterForkBad"), the
+   plain object in a, the object in a signed with b ("wrongFork"), the fork-straddling objects.  The verdict of each
+   call is what Valid / MayEnter / MustEnter say for that call ALONE - only an implementation could remember the fork
+   version it resolved for an earlier call (control DomainCache).
 
    Two descriptions are related here: Valid/MayEnter is the property as stated; PeerAdmits/VCEntryOK transcribe the
    checks of the code in the order the code makes them.  The model checker shows that the transcription implies the
@@ -55,6 +61,8 @@ CONSTANTS N,                \* shares (= nodes) per validator, indices 1..N
                             \* (sum of the signatures against the sum of the claimed public shares) ("none" = as coded)
           MemoVerifier,     \* control: the peer verifier remembers (public share, signature) of verified partials and
                             \* admits a remembered pair without looking at the object it now comes with
+          DomainCache,      \* control: the validator API remembers, per domain type, the signing domain of the LATEST epoch
+                            \* it resolved one for, and uses it for every object of that or an earlier epoch
           ReplayPolicy      \* "admit" as coded (no handler keeps a history: a re-submitted valid partial enters again) |
                             \* "either": the statement is silent about exact re-submissions
 
@@ -76,6 +84,8 @@ Dom == [attestation |-> "DOMAIN_BEACON_ATTESTER", proposal |-> "DOMAIN_BEACON_PR
 EpochSource == [attestation |-> "target", proposal |-> "slot", blinded |-> "slot", randao |-> "epoch", exit |-> "epoch",
                 registration |-> "genesis", bcselection |-> "slot", aggregate |-> "slot", aggregate_legacy |-> "slot",
                 syncmsg |-> "slot", scselection |-> "slot", contribution |-> "slot"]
+\* types whose signing domain depends on the epoch of the object (all but the builder registration)
+ForkKind(k) == EpochSource[k] # "genesis"
 \* types that carry a slot AND an attestation target epoch: the two can lie on opposite sides of a fork activation
 TwoTimes(k) == k \in {"attestation", "aggregate", "aggregate_legacy"}
 \* core.DutyType numbers (core/types.go); the duty a handler files the entry under
@@ -140,6 +150,8 @@ AltsOf(p, k, own, v) ==
   \* slot just before a fork activation and target epoch at it ("before"), or slot at it and target epoch before
   \* ("after"); signed with the fork version of the type's epoch source (OK) or of the other time field (Bad)
   \cup (IF TwoTimes(k) THEN {A(a, 0, side) : a \in {"straddleOK", "straddleBad"}, side \in {"before", "after"}} ELSE {})
+  \* the object wholly in the NEXT fork version b (every time field of it), signed with b (valid) / with a (Bad)
+  \cup (IF ForkKind(k) THEN {A("laterFork", 0, ""), A("laterForkBad", 0, "")} ELSE {})
   \cup (IF p = "peer" THEN {A("idx0", 0, ""), A("idxN1", 0, ""), A("future", 0, ""), A("futureEdge", 0, "")}
                            \* the wire-supplied duty slot is 2^63, 2^63 + the current slot, 2^64 - 1
                            \cup {A("hugeSlot", 0, x) : x \in {"2p63", "2p63now", "max"}}
@@ -231,6 +243,36 @@ SeqsOf(p, k) ==
          t \in FewVersionsOf(k) \X (1..N) \X (1..V)}
 SeqsOn(paths) == UNION {SeqsOf(pk[1], pk[2]) : pk \in {pk \in paths \X Kinds : pk[2] \in KindsOn(pk[1])}}
 
+(* --- fork sequences: the calls of one schedule go to the same component instances and submit FRESH objects (each
+   with its own valid-or-altered signature) of one kind, validator and share that lie in different fork versions.
+   Pairs: every ordered pair of two different members of ForkSeqAltsOf; triples: the four plain members only,
+   alternating between the fork versions (a b a / b a b), no member twice. --- *)
+CoreForkAlts == {A("none", 0, ""), A("wrongFork", 0, ""), A("laterFork", 0, ""), A("laterForkBad", 0, "")}
+ForkSeqAltsOf(k) == CoreForkAlts
+                    \cup (IF TwoTimes(k) THEN {A(a, 0, side) : a \in {"straddleOK", "straddleBad"}, side \in {"before", "after"}} ELSE {})
+InB(c) == c.alt \in {"laterFork", "laterForkBad"}
+ForkAlt(c) == ForkKind(c.kind) /\ A(c.alt, c.ai, c.as) \in ForkSeqAltsOf(c.kind)
+\* what the trace specification accepts as calls of one fork sequence
+ForkSeq(c1, c) == /\ ForkAlt(c1) /\ ForkAlt(c) /\ c.path = c1.path /\ c.node = c1.node /\ c.sender = c1.sender
+                  /\ c.val = c1.val /\ c.kind = c1.kind /\ c.ver = c1.ver
+\* the calls the model checker and the generator follow the calls cs (1..2 of them) with
+ForkFollow(cs) ==
+  LET c1 == cs[1]
+      S == {Case(c1.path, c1.kind, c1.ver, c1.node, c1.val, a) : a \in ForkSeqAltsOf(c1.kind)}
+      core(c) == A(c.alt, c.ai, c.as) \in CoreForkAlts
+  IN  IF ~(ForkAlt(c1) /\ c1.ver \in FewVersionsOf(c1.kind)) THEN {}
+      ELSE IF Len(cs) = 1 THEN S \ {c1}
+      ELSE IF core(c1) /\ core(cs[2]) /\ InB(c1) # InB(cs[2])
+           THEN {c \in S : core(c) /\ c # c1 /\ c # cs[2] /\ InB(c) # InB(cs[2])}
+           ELSE {}
+ForkSeqsOf(p, k) ==
+  IF ~ForkKind(k) THEN {}
+  ELSE UNION {LET first == {Case(p, k, t[1], t[2], t[3], a) : a \in ForkSeqAltsOf(k)}
+                  pairs == UNION {{<<x, y>> : y \in ForkFollow(<<x>>)} : x \in first}
+              IN  pairs \cup UNION {{Append(q, z) : z \in ForkFollow(q)} : q \in pairs} :
+              t \in FewVersionsOf(k) \X (1..N) \X (1..V)}
+ForkSeqsOn(paths) == UNION {ForkSeqsOf(pk[1], pk[2]) : pk \in {pk \in paths \X Kinds : pk[2] \in KindsOn(pk[1])}}
+
 \* As coded: go-eth2-client's VersionedSignedProposal.Slot() answers "unsupported version" for phase0 and altair
 \* blocks, so both handlers refuse them whatever the signature.  The statement is silent about such objects.
 Supported(k, ver) == ~(k = "proposal" /\ ver \in {"phase0", "altair"})
@@ -251,6 +293,8 @@ Alter(e, c) ==
     [] c.alt = "otherVal" -> [e EXCEPT !.by = <<c.ai, e.idx>>]
     [] c.alt = "wrongDomain" -> [e EXCEPT !.sdom = c.as]
     [] c.alt = "wrongFork" -> [e EXCEPT !.sfork = "b"]
+    [] c.alt = "laterFork" -> [e EXCEPT !.slotFork = "b", !.tgtFork = "b", !.sfork = "b"]
+    [] c.alt = "laterForkBad" -> [e EXCEPT !.slotFork = "b", !.tgtFork = "b", !.sfork = "a"]
     [] c.alt = "straddleOK" -> LET x == Straddle(e, c.as) IN [x EXCEPT !.sfork = OwnFork(x)]
     [] c.alt = "straddleBad" -> LET x == Straddle(e, c.as) IN [x EXCEPT !.sfork = OtherFork(OwnFork(x))]
     [] c.alt = "field" -> [e EXCEPT !.cur = c.as]
@@ -308,7 +352,7 @@ MayEnter(m, k) ==
 \* sanity of the whole arrangement: an unaltered submission does enter (except where the endpoint ignores its input);
 \* a batch of valid elements of different validators enters entirely
 DistinctVals(m) == \A j, k \in DOMAIN m.entries : j # k => m.entries[j].val # m.entries[k].val
-MustEnter(m) == /\ \/ m.alt \in {"none", "futureEdge", "straddleOK"}
+MustEnter(m) == /\ \/ m.alt \in {"none", "futureEdge", "straddleOK", "laterFork"}
                    \/ m.alt = "batch" /\ DistinctVals(m) /\ \A k \in DOMAIN m.entries : Valid(m.entries[k])
                 /\ ~(m.path = "vc" /\ m.kind = "registration") /\ m.supported
 
@@ -316,15 +360,22 @@ MustEnter(m) == /\ \/ m.alt \in {"none", "futureEdge", "straddleOK"}
 VARIABLES msg, phase, delivered,
           calls,       \* the cases submitted so far in this schedule
           seen,        \* MemoVerifier only: the (public share, signature) pairs the peer verifier has accepted
-          admitted     \* ReplayPolicy = "either" only: the entries admitted by earlier calls
-vars == <<msg, phase, delivered, calls, seen, admitted>>
+          admitted,    \* ReplayPolicy = "either" only: the entries admitted by earlier calls
+          dcache       \* DomainCache only: <<domain type, fork version>> of the latest epoch a domain was resolved for
+vars == <<msg, phase, delivered, calls, seen, admitted, dcache>>
 
 (* ------------------------------------------ the handlers, as coded ----------------------------------------- *)
 Lock == [v \in 1..V |-> [i \in 1..N |-> <<v, i>>]]
 \* core.VerifyEth2SignedData -> signing.Verify: data root from the object's DomainName/Epoch/MessageRoot, the zero
 \* signature is refused, then tbls.Verify
-CodeFork(m, e) == IF SwapEpochFor = m.kind THEN (IF e.esrc = "target" THEN e.slotFork ELSE e.tgtFork)
+CodeFork(m, e) == IF DomainCache /\ m.path = "vc" /\ <<e.ddom, "b">> \in dcache THEN "b"
+                  ELSE IF SwapEpochFor = m.kind THEN (IF e.esrc = "target" THEN e.slotFork ELSE e.tgtFork)
                   ELSE OwnFork(e)                                               \* data.Epoch(ctx, eth2Cl)
+\* what a domain-remembering validator API would have added to its memo during the current call (every entry of the
+\* request is taken to reach the domain lookup; b is the later of the two fork versions)
+ResolvedNow == IF msg.path = "vc"
+               THEN {<<msg.entries[k].ddom, "b">> : k \in {j \in DOMAIN msg.entries : OwnFork(msg.entries[j]) = "b"}}
+               ELSE {}
 VerifyEth2(key, e, m) == /\ e.ddom # "none"                   \* "invalid eth2 signed data"
                          /\ e.sk # "zero"                     \* "no signature found"
                          /\ e.sk = "bls" /\ e.by = key /\ e.over = e.cur /\ e.sdom = e.ddom /\ e.sfork = CodeFork(m, e)
@@ -388,25 +439,28 @@ Choices(m, k) ==
        THEN BOOLEAN
        ELSE {FALSE}
 
-Init == msg = NoMsg /\ phase = "idle" /\ delivered = {} /\ calls = <<>> /\ seen = {} /\ admitted = {}
-\* a call: the handlers keep nothing from one call to the next (`seen` and `admitted` are empty as coded)
+Init == msg = NoMsg /\ phase = "idle" /\ delivered = {} /\ calls = <<>> /\ seen = {} /\ admitted = {} /\ dcache = {}
+\* a call: the handlers keep nothing from one call to the next (`seen`, `admitted` and `dcache` are empty as coded)
 Start(c, m) == /\ phase \in {"idle", "done"} /\ msg' = m /\ phase' = "recv" /\ delivered' = {}
                /\ calls' = Append(calls, c)
                /\ seen' = IF MemoVerifier THEN seen \cup VerifiedNow ELSE seen
                /\ admitted' = IF ReplayPolicy = "either" THEN admitted \cup {msg.entries[k] : k \in delivered} ELSE admitted
+               /\ dcache' = IF DomainCache THEN dcache \cup ResolvedNow ELSE dcache
 Submit(c) == Start(c, Msg(c))
 SubmitBatch(b) == calls = <<>> /\ Start(b, MsgB(b))
 Deliver(k) == /\ phase = "recv" /\ k \in DOMAIN msg.entries /\ k \notin delivered
               /\ TRUE \in Choices(msg, k)
-              /\ delivered' = delivered \cup {k} /\ UNCHANGED <<msg, phase, calls, seen, admitted>>
+              /\ delivered' = delivered \cup {k} /\ UNCHANGED <<msg, phase, calls, seen, admitted, dcache>>
 Return == /\ phase = "recv"
           /\ \A k \in DOMAIN msg.entries : (k \in delivered) \in Choices(msg, k)
-          /\ phase' = "done" /\ UNCHANGED <<msg, delivered, calls, seen, admitted>>
-\* one single-element call, one batch, or up to 3 calls that carry the same signature
+          /\ phase' = "done" /\ UNCHANGED <<msg, delivered, calls, seen, admitted, dcache>>
+\* one single-element call, one batch, up to 3 calls that carry the same signature, or up to 3 calls of a fork sequence
 Next == \/ phase = "idle" /\ \E c \in CasesOn(Paths) : Submit(c)
         \/ phase = "idle" /\ \E b \in BatchCasesOn(Paths) : SubmitBatch(b)
         \/ phase = "done" /\ Len(calls) \in 1..2 /\ SeqCase(calls[1])
                           /\ \E c \in FollowSet(calls[1]) : Submit(c)
+        \/ phase = "done" /\ Len(calls) \in 1..2 /\ msg.alt # "batch"
+                          /\ \E c \in ForkFollow(calls) : Submit(c)
         \/ (\E k \in 1..3 : Deliver(k)) \/ Return
 Spec == Init /\ [][Next]_vars
 
